@@ -740,12 +740,21 @@ def r_iso_operators_plain(cx):
         if not cx.f.has_fn(name):
             cx.ob("R-ISO-OPERATORS-PLAIN", "%s/anchor" % tail, False, "anchor-missing: %s" % name)
             continue
-        f = cx.f.fn(name)
+        f0 = cx.f.fn(name)
         n += 1
         extra = []
         seen = set()
-        for bb, t in f.calls():
-            if f.innermost_loop(bb) is None or (t["span"].get("exp") or "").startswith("macro"):
+        # the per-tuple work: the calls in the loop of the function - or, where the loop lives in a shared helper that
+        # takes the conversion as a closure, the calls of that closure
+        sites = [(f0, bb, t) for bb, t in f0.calls() if f0.innermost_loop(bb) is not None]
+        if not sites:
+            for cname in sorted(cx.f.lib["fns"]):
+                if cname.startswith(name + "::{closure"):
+                    g = cx.f.fn(cname)
+                    sites += [(g, bb, t) for bb, t in g.calls()]
+        f = f0
+        for f, bb, t in sites:
+            if (t["span"].get("exp") or "").startswith("macro"):
                 continue
             c = f.callee(t) or ""
             ct = c.rsplit("::", 1)[-1]
@@ -762,5 +771,5 @@ def r_iso_operators_plain(cx):
               "%s applies %s to the horizontal elements and nothing else" % (tail, ", ".join(allowed)) if ok else
               ("%s also applies `%s` to the tuple: the operator no longer agrees with the conversion functions of math::angular "
                "(e.g. a longitude beyond 180 degrees is encoded as another angle)" % (tail, extra[0][0]) if extra else
-               "%s does not apply %s" % (tail, ", ".join(missing))), cx.where(extra[0][1]["span"]) if extra else cx.where(f.d["span"]))
+               "%s does not apply %s" % (tail, ", ".join(missing))), cx.where(extra[0][1]["span"]) if extra else cx.where(f0.d["span"]))
     cx.count("R-ISO-OPERATORS-PLAIN", "functions", n)
